@@ -1,4 +1,8 @@
-"""Per-property configuration of ./check (what to pre-generate, what is trusted, how cases are counted)."""
+"""Per-property configuration of ./check, loaded from tools/props/Cxx.json
+(what to pre-generate, what is trusted, how cases are counted, MANIFEST texts)."""
+import glob
+import json
+import os
 
 COMMON_TB = [
     "Lean 4.33.0 kernel (thorough tier: re-checked by leanchecker); axioms per theorem are listed under coverage.axioms and are a subset of {propext, Classical.choice, Quot.sound}; no native_decide, no bv_decide, no axioms of our own",
@@ -6,28 +10,13 @@ COMMON_TB = [
     "the Rust harness (generators, canonicalisation, oracle) and the Lean compiler (for the correspondence step only)",
 ]
 
-PROPS = {
-    "C15": {
-        "trusted_base": COMMON_TB + [
-            "modelled, not verified: octseq::Parser (as buffer + position), chrono's timestamp_opt acceptance rule (validated differentially), String::from_utf8_lossy (only ASCII-ness is observed)",
-        ],
-        "assumptions": [
-            "the embedded UPDATE of a RouteMonitoring message is decoded by UpdateMessage::parse (properties C01/C02); here only that bgp_update() agrees with decoding the same bytes on their own is checked (oracle)",
-            "session_config()/pph_session_config()/supported_protocols() of PeerUp are covered by C12/C03 (capability accessors), not here",
-        ],
-        "rule": "7 message types x {valid from a type-directed generator with embedded OPEN pairs / NOTIFICATIONs / UPDATEs / statistics of all 18 defined types + unknown ones / TLV lists / termination reasons; 1 mutation; 2-4 mutations; random bytes} (mutations: bit flips, truncation, extension, header-length edits to 0/3/5/6/max/+-, type byte edits, byte insert/delete); corpus of past failures first. non-trivial = accepted by from_octets (every accessor group then runs) - distinct request lines counted",
-        "partial": "faithfulness theorems are proved per accessor against the reference encoder for the per-peer header, statistics, TLVs, termination and peer-down fields; the embedded BGP PDUs are returned byte for byte (theorem) and their *decoding* is C01/C03's subject",
-    },
-    "C18": {
-        "pre": [["python3", "tools/gen_codepoints.py", "/repo", "lean/Rc/Gen/Codepoints.lean", "work/codepoint_fingerprints.json"]],
-        "trusted_base": COMMON_TB + [
-            "translator tools/gen_codepoints.py (typeenum!/afisafi!/path_attributes! invocations, Header::msg_type, AddpathDirection, SegmentType, details()/raw() match arms -> Lean tables); the generic semantics of the typeenum!/afisafi! macro bodies in Rc/Model/Codepoint.lean is hand-written and validated exhaustively on this run",
-        ],
-        "assumptions": [
-            "rustc's integer literal and match semantics (first matching arm wins)",
-            "derive(Debug) output identifies the enum variant",
-        ],
-        "rule": "exhaustive: every u8/u16 value of each of the 23 enumerations through the real From/Into, all 65536 (code, subcode) pairs through NotificationMessage::details -> Details::raw, all 256 bytes through Header::msg_type / AddpathDirection / SegmentType, all SAFIs for 13 AFIs + 2000 random pairs + a sweep over AFI 0..1023 x all SAFIs (thorough: all 2^24 pairs). non-trivial = the value maps to a named or range variant (not the plain catch-all)",
-        "exhaustive": "all values of all u8/u16 enumerations and all (code, subcode) pairs; AFI/SAFI pairs exhaustive in the thorough tier",
-    },
-}
+PROPS = {}
+TEXT = {}
+_here = os.path.dirname(os.path.abspath(__file__))
+for _p in sorted(glob.glob(os.path.join(_here, "props", "C*.json"))):
+    _d = json.load(open(_p))
+    _pid = os.path.basename(_p)[:-5]
+    if _d.pop("common_tb", True):
+        _d["trusted_base"] = COMMON_TB + _d.get("trusted_base", [])
+    TEXT[_pid] = _d.pop("manifest")
+    PROPS[_pid] = _d
